@@ -441,9 +441,8 @@ impl Operator for DeleteNodeOperator {
                 };
 
                 if self.detach {
-                    // Delete all connected edges first
-                    // Note: Edge deletion will use epoch internally
-                    self.store.delete_node_edges(node_id);
+                    // Delete all connected edges first, at the same epoch as the node
+                    self.store.delete_node_edges_at_epoch(node_id, epoch);
                 }
 
                 // Delete the node with MVCC versioning
